@@ -2,7 +2,8 @@
 // rules, abnf, json, uri, iri): every token string of bounded length, on a terminator-less buffer with a
 // PROT_NONE page directly behind (pass 1) or in front of (pass 2) the data, eager and lazy tracking.
 // Oracle: no guard page fault, no peek_char / bump beyond the end of the input (TAO_PEGTL_VERIF hook),
-// cursor <= end after the run.  The match result itself is not judged here (C14 / C20 do that).
+// cursor <= end after the run; the position reported after the run follows the prefix formula (C06).  The match result
+// itself is not judged here (C14 / C20 do that).
 #include "../engine/hooks.hpp"
 
 #include <tao/pegtl.hpp>
@@ -35,8 +36,9 @@ static void on_fault( int )
 
 struct Outcome
 {
-   int fault = 0, hook = 0, beyond = 0, moved = 0;
+   int fault = 0, hook = 0, beyond = 0, moved = 0, badpos = 0;
    const char* hook_what = "";
+   std::string pos_info;
 };
 
 template< typename Rule, p::tracking_mode P >
@@ -59,6 +61,25 @@ static Outcome run( const std::string& s, int mode )
       }
       g_armed = 0;
       if( in.current() > in.end() || in.current() < data ) o.beyond = 1;
+      else {
+         // C06: wherever the run ended, the reported position is a function of the consumed prefix (eol::lf_crlf: lines end at LF)
+         const auto pos = in.position();
+         const std::size_t n = std::size_t( in.current() - data );
+         std::size_t line = 1, col = 1;
+         for( std::size_t i = 0; i < n; ++i ) {
+            if( data[ i ] == '\n' ) {
+               ++line;
+               col = 1;
+            }
+            else {
+               ++col;
+            }
+         }
+         if( pos.byte != n || pos.line != line || pos.column != col ) {
+            o.badpos = 1;
+            o.pos_info = "reported " + std::to_string( pos.byte ) + ":" + std::to_string( pos.line ) + ":" + std::to_string( pos.column ) + " formula " + std::to_string( n ) + ":" + std::to_string( line ) + ":" + std::to_string( col );
+         }
+      }
    }
    else {
       o.fault = 1;
@@ -112,6 +133,7 @@ static void check( const RuleEntry& r, const std::string& s )
          if( o.hook ) vf::violation( std::string( "C03|" ) + o.hook_what + "|" + r.name, det, cs );
          if( o.beyond ) vf::violation( std::string( "C03|cursor outside the input after the run|" ) + r.name, det, cs );
          if( o.moved ) vf::violation( std::string( "C02|local failure with rewind_mode::required left the cursor moved|" ) + r.name, det, cs );
+         if( o.badpos ) vf::violation( std::string( "C06|position after the run differs from the prefix formula|" ) + r.name, det + ",\"info\":\"" + o.pos_info + "\"", cs );
       }
    }
 }
@@ -144,6 +166,8 @@ int main( int argc, char** argv )
             if( o.fault ) vf::violation( std::string( "C03|memory access outside the input buffer (guard page fault)|" ) + r.name, "", vf::args.the_case );
             if( o.hook ) vf::violation( std::string( "C03|" ) + o.hook_what + "|" + r.name, "", vf::args.the_case );
             if( o.beyond ) vf::violation( std::string( "C03|cursor outside the input after the run|" ) + r.name, "", vf::args.the_case );
+            if( o.moved ) vf::violation( std::string( "C02|local failure with rewind_mode::required left the cursor moved|" ) + r.name, "", vf::args.the_case );
+            if( o.badpos ) vf::violation( std::string( "C06|position after the run differs from the prefix formula|" ) + r.name, "\"info\":\"" + o.pos_info + "\"", vf::args.the_case );
          }
       vf::finish();
       return 0;
